@@ -49,8 +49,11 @@ def rustLines (s : Str) : List Str :=
 /-- `DocumentPrinter::docs` -/
 def docs (p : PS) (ds : List DocComment) : PS :=
   ds.foldl (fun p d =>
-    (rustLines d.comment).foldl (fun p line =>
-      ((p.doIndent.writeS "/// ").write (Wac.Lex.rustTrim line)).newline) p) p
+    -- "An empty comment is a single empty line"
+    let comment := if d.comment.isEmpty then ['\n'] else d.comment
+    (rustLines comment).foldl (fun p line =>
+      let line := Wac.Lex.rustTrim line
+      (if line.isEmpty then p.doIndent.writeS "///" else (p.doIndent.writeS "/// ").write line).newline) p) p
 
 def identSrc (i : Ident) : Str := i.raw
 def stringSrc (s : StringLit) : Str := ['"'] ++ s.value ++ ['"']
@@ -325,7 +328,7 @@ def exprArgs (p : PS) : List InstantiationArgument → PS
           | .Ident id => (p.write (identSrc id)).writeS ": "
           | .String s => (p.write (stringSrc s)).writeS ": "
         (expr p e).writeS ","
-      | .Fill _ => p.writeS "..."
+      | .Fill _ => if r.isEmpty then p.writeS "..." else p.writeS "...,"
     exprArgs p.newline r
 end
 
@@ -353,7 +356,7 @@ def statement (p : PS) : Statement → PS
 def packageDirective (p : PS) (d : PackageDirective) : PS :=
   let p := (p.doIndent.writeS "package ").write d.package.string
   let p := match d.targets with
-    | some t => packagePath (p.writeS " ") t
+    | some t => packagePath (p.writeS " targets ") t
     | none => p
   (p.writeS ";\n").newline
 
